@@ -486,7 +486,11 @@ impl<'a> G01<'a> {
             }
             3 => {
                 let n = 1 + self.rng.usize(2);
-                (VKind::Data(Ty::Fn(n)), self.lambda_fn(n, d))
+                if self.rng.chance(1, 2) {
+                    (VKind::Data(Ty::Fn(n)), self.fn_expr(n, d))
+                } else {
+                    (VKind::Data(Ty::Fn(n)), self.lambda_fn(n, d))
+                }
             }
             _ => {
                 let t = match self.rng.below(10) {
@@ -1462,10 +1466,52 @@ impl<'a> G01<'a> {
         list(vec![sym("define"), sym(&name), init])
     }
 
+    /// (define (fN) (define dA init) (lambda (pB) (set! dA (+ dA pB)) dA)): a parameterless
+    /// procedure whose internal definition is captured and mutated by the closure it returns;
+    /// closures of separate activations must not share the location
+    fn define_factory(&mut self) -> Sx {
+        let level = self.globals.len() + 1;
+        let name = self.fresh("f");
+        let d = self.fresh("d");
+        let p = self.fresh("p");
+        let init = self.small_int();
+        let with_param = self.rng.chance(1, 3);
+        let q = self.fresh("p");
+        let (formals, params, init_sx) = if with_param {
+            (list(vec![sym(&name), sym(&q)]), vec![Ty::Int], call("+", vec![sym(&q), int(init)]))
+        } else {
+            (list(vec![sym(&name)]), vec![], int(init))
+        };
+        self.globals.push(Var {
+            name: name.clone(),
+            kind: VKind::Proc(Sig {
+                params,
+                rest: false,
+                ret: Ty::Fn(1),
+            }),
+            assignable: false,
+            level,
+        });
+        list(vec![
+            sym("define"),
+            formals,
+            list(vec![sym("define"), sym(&d), init_sx]),
+            list(vec![
+                sym("lambda"),
+                list(vec![sym(&p)]),
+                list(vec![sym("set!"), sym(&d), call("+", vec![sym(&d), sym(&p)])]),
+                sym(&d),
+            ]),
+        ])
+    }
+
     pub fn top_form(&mut self) -> Sx {
         self.cur_level = usize::MAX;
         if self.rng.below(1000) < self.opt.fail_permille {
             return self.failing_form();
+        }
+        if self.rng.chance(1, 12) {
+            return self.define_factory();
         }
         let nglob = self.globals.len();
         match self.rng.below(if nglob < 2 { 5 } else { 14 }) {
